@@ -47,6 +47,11 @@ def scenarios(ctx):
     out.append(("group-two-getone", scen_group.make, gc.two_members(members=[dict(topics=["t"], assignors=["range"], poll="getone"),
                                                                              dict(topics=["t"], assignors=["range"], start=1.0, poll="getone")],
                                                                     feed=[0.7, 2], **tail), K))
+    # a consumer whose group is not authorized: start() raises (a fatal coordination error is pending, nobody polls), then the
+    # application's try/finally calls stop()
+    out.append(("group-unauthorized-start-fails", scen_group.make,
+                gc.two_members(members=[dict(topics=["t"], assignors=["range"])], group_unauthorized=True, stop_after_failed_start=True,
+                               **dict(tail, stop_alt=False)), [{"r": 1}]))
     # the final commit of stop() answered REBALANCE_IN_PROGRESS (one error reply placed anywhere, then stop placed anywhere)
     out.append(("group-two-commit-rebalance-in-progress", scen_group.make,
                 gc.two_members(**dict(tail, errs={"OffsetCommit": [27]}, fault_apis=["OffsetCommit"], faults=["err"], k_mid=False, explore_until=1.9)),
